@@ -200,8 +200,8 @@ CHECKS = {
         technique="Coq proof over a string-level parser model + tables regenerated from source by a translator + differential correspondence"),
     "C04": dict(
         category="proof",
-        text="Coq theorems (Properties/C04.v): binary codes are in {-1,+1} ({0,1} in 0/1 mode) with the sign of the input and zero positive; ternary codes are in {-1,0,+1}, zero exactly when |x| is below the threshold, otherwise the sign; the least-squares scale s (s*sum q^2 = sum x q) minimises the squared error over ALL scales for every group (QArith) and is non-negative for sign codes; soundness of the element and group checkers. Correspondence (relational): for every group of every tensor the implementation's inputs, outputs and reported scale are judged in Coq with exact rationals: output = float32 STE sum of scale*code, codes follow the sign/threshold rule, scale >= 0, constant per group, equal to the least-squares optimum (2^-17), power of two within bounds for auto_po2.",
-        design_ref="DESIGN.md section 5 C04, section 10",
+        text="Coq theorems (Properties/C04.v): binary codes are in {-1,+1} ({0,1} in 0/1 mode) with the sign of the input and zero positive; ternary codes are in {-1,0,+1}, zero exactly when |x| is below the threshold, otherwise the sign; the least-squares scale s (s*sum q^2 = sum x q) minimises the squared error over ALL scales for every group (QArith) and is non-negative for sign codes; soundness of the element and group checkers. Correspondence (relational): for every group of every tensor the implementation's inputs, outputs and reported scale are judged in Coq with exact rationals: output = float32 STE sum of scale*code, codes follow the sign/threshold rule, scale >= 0, constant per group, equal to the least-squares optimum (2^-17), power of two within bounds for auto_po2. Translator (tools/translate/btgen.py -> coq/gen/BinTernGen.v, regenerated every run; Link/BinTernLink.v): binary.__call__, ternary.__call__ and _get_least_squares_scale are executed symbolically for every kind of alpha; the arithmetic that yields the binary code, the ternary mask*sign product and one refinement step of the data-dependent ternary scale are proved equal to the model codes for every input (the step is zero exactly when |x| <= scale/2, tie included), and the tables of surrogate (x or tanh x), scale source, threshold source and least-squares formula are proved equal to the hand tables the correspondence harness assumes.",
+        design_ref="DESIGN.md section 5 C04, section 10, section 10.10",
         note=(TB_COMMON + 'tf reductions and float32 log/tanh are oracles: least-squares relation judged to 2^-17, the po2 exponent inside the band of LS*(1+-2^-12); grouping (last axis / scale_axis / elements_per_scale blocks) applied by the harness as documented.'),
         technique="Coq proof (codes, least-squares optimality) + certified relational checker evaluated by vm_compute on the implementation's data"),
     "C05": dict(
